@@ -458,6 +458,35 @@ pub fn summary_pairs(case: &Case, seed: u64) -> Vec<Value> {
                 continue;
             }
             let text = String::from_utf8_lossy(&buf).to_string();
+            // the same summary asked of the command-line program (`acb --summarize-before <date>`): the
+            // option has to reach the library unchanged, so the bytes printed must be these.  Asked when
+            // the date is a settlement date of the history (the inclusive boundary) and for one other
+            // date in four; a run that does not end with status 0 (e.g. no rates on file) is not compared.
+            if days.contains(&cut) || cut % 4 == 0 {
+                let dir = crate::proc::exe_dir().join("cli_scratch").join(format!("{}_{}_{}", case.id.replace(|c: char| !c.is_ascii_alphanumeric(), "_"), cut, annual));
+                let _ = std::fs::remove_dir_all(&dir);
+                let home = dir.join("home");
+                std::fs::create_dir_all(&home).unwrap();
+                let mut args = crate::proc::write_case_files(case, &dir.join("in"));
+                args.push("--summarize-before".into());
+                args.push(date_str(cut));
+                if annual {
+                    args.push("--summarize-annual-gains".into());
+                }
+                let p = crate::proc::run_proc(&crate::proc::exe_dir().join("acb-app"), &args, &home, None, None, 60);
+                let _ = std::fs::remove_dir_all(&dir);
+                // (letter case is not compared: the spelling of an affiliate's name is the first one the
+                // process has seen, and this process has read many inputs)
+                if p.code == 0 && !p.timed_out && p.stdout.to_ascii_lowercase() != buf.to_ascii_lowercase() {
+                    let k = p.stdout.iter().zip(buf.iter()).position(|(x, y)| x.to_ascii_lowercase() != y.to_ascii_lowercase()).unwrap_or(p.stdout.len().min(buf.len()));
+                    let snip = |z: &[u8]| crate::ledger::clean(&String::from_utf8_lossy(&z[k.saturating_sub(40).min(z.len())..(k + 40).min(z.len())]));
+                    out.push(json!({"id": case.id, "kind": "summary", "cls": "summary", "a": sa[0],
+                                    "b": {"sec": "*", "rows": [], "deltas": [], "status": "error",
+                                          "msg": format!("acb --summarize-before {} prints a summary other than the one the library makes for that date: '{}' vs '{}'", date_str(cut), snip(&p.stdout), snip(&buf)),
+                                          "afs": [], "opening": {"has": false, "n": dzero(), "c": dzero()}},
+                                    "cut": cut, "annual": annual, "k": 0, "post": dzero(), "pre": dzero(), "perAff": false}));
+                }
+            }
             let claimed: Vec<Row> = data.txs.iter().map(tx_to_row).collect();
             let tail: Vec<Row> = case.files.iter().flatten().filter(|r| r.sd > cut).cloned().collect();
             let mut files = Vec::new();
